@@ -398,6 +398,9 @@ def run(ctx):
     F = ctx.facts("core")
     r5_callbacks_under_iteration(ctx, F)
     r7_adapter_releases_on_exhaustion(ctx, F)
+    # every list mutator (element assignment included) checks the iteration lock first (shared with C04.R2)
+    from rules.C04 import r2_list
+    r2_list(ctx, F, rule="C12.R8")
     r6_views(ctx, F)
     r1_exits(ctx, F)
     r2_error_exit(ctx, F)
